@@ -111,6 +111,15 @@ theorem txv_onContact (e : Ep) :
   · simp only [if_true, Bool.not_true, Bool.false_eq_true, if_false]
     rw [txv_setState]; rfl
 
+theorem txv_sendInit (e : Ep) : (sendInit e).txView =
+    { e.txView with
+      sentInit := true,
+      emitted := e.emitted ++ [.sessInit e.cfg.keepalive e.cfg.segMru sizeMax e.cfg.nodeId (sessionExt e.cfg)] } := rfl
+
+theorem txv_mergeSession (e : Ep) (p : PeerInit) : (mergeSession e p).txView =
+    { e.txView with kaTime := min e.cfg.keepalive p.keepalive, idleTime := e.cfg.idle,
+                    sendSegSize := min e.cfg.segInit p.segMru } := rfl
+
 theorem txv_onSessInit (e : Ep) (p : PeerInit) :
     (onSessInit e p).1.txView =
       if e.cfg.passive then
@@ -125,10 +134,14 @@ theorem txv_onSessInit (e : Ep) (p : PeerInit) :
           sendSegSize := min e.cfg.segInit p.segMru, peerInit := some p } := by
   unfold onSessInit
   simp only []
-  rw [txv_setState]
+  rw [txv_setState, txv_mergeSession]
   cases hp : e.cfg.passive
   · simp only [Bool.false_eq_true, if_false]; rfl
-  · simp only [if_true]; rfl
+  · simp only [if_true]
+    have h0 : ∀ e1 : Ep, ({ e1 with peerInit := some p, inSess := true } : Ep).txView
+        = { e1.txView with peerInit := some p, inSess := true } := fun _ => rfl
+    rw [h0, txv_sendInit]
+    rfl
 
 theorem txInv_onContact (e : Ep) (P P' : LState) (f : Nat) (hi : TxInv e P)
     (hstep : legalStep P (.contact f) = some P') :
@@ -180,7 +193,7 @@ theorem txInv_onSessTerm (e : Ep) (P : LState) (m : Msg) (r : Nat) (hi : TxInv e
       · rename_i h2; simp [hs] at h2
       · split
         · rename_i h2; simp [h'] at h2
-        · simp only [flushPendStart, sendMessage, kaReset, idleReset, setState]
+        · simp only [flushPendStart, sendMessage, sendReady, kaReset, idleReset, setState]
           split <;> rfl
     · rename_i h; simpa using h
   have h2 : TxInv { (if !e.inTerm then sendSessTerm e r true else (e, [])).1 with gotTerm := true } P :=
@@ -295,6 +308,26 @@ theorem txInv_recvRaw (e : Ep) (c : Bytes) (P : LState) (hi : TxInv e P)
     obtain ⟨P', h⟩ := txInv_handleMsgs _ _ P h0 hleg hok
     exact ⟨P', txInv_of_view rfl h⟩
 
+theorem txInv_pump (e : Ep) (n : Nat) (P : LState) (hi : TxInv e P) : TxInv (pump e n).1 P := by
+  unfold pump writeConn
+  have h1 : TxInv (pullTx e) P := by
+    refine txInv_of_view ?_ hi
+    unfold pullTx; split
+    · unfold sendBufferDecreased; split
+      · rw [txv_pqTrigger]; rfl
+      · rfl
+    · rfl
+  split
+  · split
+    · exact txInv_checkSessTerm _ _ h1
+    · exact h1
+  · simp only []
+    split
+    · exact h1
+    · split
+      · exact txInv_checkSessTerm _ _ (txInv_of_view rfl h1)
+      · exact txInv_of_view rfl h1
+
 /-- **G-tx, one step.** -/
 theorem txInv_step (e : Ep) (ev : Ev) (P : LState) (hi : TxInv e P) (htm : TimerInv e)
     (hsend : ∀ d, ev = .send d → d.length < 2 ^ 64)
@@ -349,25 +382,9 @@ theorem txInv_step (e : Ep) (ev : Ev) (P : LState) (hi : TxInv e P) (htm : Timer
     simp only []
     split
     · exact ⟨P, hi⟩
-    · refine ⟨P, ?_⟩
-      unfold pump writeConn
-      have h1 : TxInv (pullTx e) P := by
-        refine txInv_of_view ?_ hi
-        unfold pullTx; split
-        · unfold sendBufferDecreased; split
-          · rw [txv_pqTrigger]; rfl
-          · rfl
-        · rfl
-      split
-      · split
-        · exact txInv_checkSessTerm _ _ h1
-        · exact h1
-      · simp only []
-        split
-        · exact txInv_doClose _ _ h1
-        · split
-          · exact txInv_checkSessTerm _ _ (txInv_of_view rfl h1)
-          · exact txInv_of_view rfl h1
+    · split
+      · exact ⟨P, hi⟩
+      · exact ⟨P, txInv_of_view rfl (txInv_pump { e with txIdle := false } n P (txInv_of_view (e := e) rfl hi))⟩
   | rx c =>
     simp only [] at hleg hok ⊢
     split
